@@ -31,7 +31,7 @@ def gen(rng, size='small'):
     m = rng.randint(1, 4) if not big else rng.randint(2, 8)
     grid = [0, 4, 8, 8, 12, 16, 24] if rng.random() < 0.7 else [0, 1, 2, 3, 5, 8, 13]
     c0 = rng.choice(grid)
-    budget = rng.choice([None, None, 3, 5, 9, 14]) if c0 > 0 else rng.choice([2, 4, 7])
+    budget = rng.choice([None, None, 3, 5, 9, 14, 0]) if c0 > 0 else rng.choice([2, 4, 7, 0])
     ents = [dict(kind='source', cycle=c0, budget=budget, gen_value=8, gen_quality=8, gen_batch=0)]
     for j in range(m):
         k = rng.choice(['handler', 'processor', 'processor', 'buffer', 'buffer'])
